@@ -1118,6 +1118,8 @@ class WasmToIrCompiler:
         ir_typ = self.get_ir_type(itype)
         b = self.pop_value(ir_typ=ir_typ)
         a = self.pop_value(ir_typ=ir_typ)
+        if opname == "div_s":
+            self.gen_signed_division_overflow_trap(a, b, ir_typ)
         do_unsigned = "_u" in opname
         if do_unsigned:
             # Unsigned operation, first cast to unsigned:
@@ -1129,6 +1131,26 @@ class WasmToIrCompiler:
         else:
             value = self.emit(ir.Binop(a, op, b, name, ir_typ))
         self.push_value(value)
+
+    def gen_signed_division_overflow_trap(self, a, b, ir_typ):
+        """Trap on INT_MIN / -1 (integer overflow).
+
+        The quotient is not representable, wasm requires a trap here.
+        """
+        min_value = self.emit(
+            ir.Const(-(2 ** (ir_typ.bits - 1)), "int_min", ir_typ)
+        )
+        minus_one = self.emit(ir.Const(-1, "minus_one", ir_typ))
+        check_block = self.new_block()
+        trap_block = self.new_block()
+        ok_block = self.new_block()
+        self.emit(ir.CJump(a, "==", min_value, check_block, ok_block))
+        self.builder.set_block(check_block)
+        self.emit(ir.CJump(b, "==", minus_one, trap_block, ok_block))
+        self.builder.set_block(trap_block)
+        self._runtime_call("unreachable")
+        self.emit(ir.Jump(ok_block))
+        self.builder.set_block(ok_block)
 
     def gen_cmpop(self, instruction):
         """Generate code for a comparison operation"""
